@@ -30,12 +30,56 @@ def run(ctx):
     from .c20 import pathsplit
     pathsplit(ctx, "R9")
     totality_table(ctx, "R10")
+    empty_segment_table(ctx, "R11")
 
 
 # strings the standard parser refuses (unbalanced bracket in the authority) or that have no authority at all, and strings
 # that merely look like a platform url next to such an authority
 UNPARSEABLE = ["http://[bad/x", "[", "//[", "https://[www.youtube.com/watch?v=abcdefghijk", "https://www.youtube.com]/watch?v=abcdefghijk", "http://[docs.google.com/document/d/x/edit", "https://[t.me/s/x",
-               "https://[www.facebook.com/l.php?u=x", "", " ", "http://", "://", "http://a.com:x/y"]
+               "https://[www.facebook.com/l.php?u=x", "", " ", "http://", "://", "http://a.com:x/y",
+               # the bracket sits in the userinfo: the platform's own host pattern still matches what follows the '@'
+               "http://[@twitter.com/x", "https://[@www.instagram.com/p/BxKRx5CHn5i/", "https://[@t.me/s/x", "http://[@www.youtube.com/watch?v=abcdefghijk", "http://[@www.facebook.com/x/posts/1", "http://[@docs.google.com/document/d/x/edit"]
+
+
+# routes whose id / name / handle segment is empty (a doubled slash) or a dot segment
+EMPTY_SEGMENT_URLS = {
+    "youtube": ["https://www.youtube.com/user//x", "https://www.youtube.com/channel//x", "https://www.youtube.com/c//x", "https://www.youtube.com/shorts//x", "https://www.youtube.com/v//x", "https://youtu.be//abcdefghijk"],
+    "facebook": ["https://www.facebook.com/groups//permalink/5", "https://www.facebook.com/groups//posts/5", "https://www.facebook.com//posts/1", "https://www.facebook.com/x/posts//", "https://www.facebook.com/../posts/1",
+                 "https://www.facebook.com/./posts/1", "https://www.facebook.com/groups//"],
+    "twitter": ["https://twitter.com//", "https://twitter.com//status/1", "https://twitter.com/u/status//", "https://twitter.com/i/lists//"],
+    "instagram": ["https://www.instagram.com//", "https://www.instagram.com/p//", "https://www.instagram.com/reel//"],
+    "telegram": ["https://t.me/s//", "https://t.me//", "https://t.me/joinchat//"],
+    "google": ["https://docs.google.com/document/d//edit", "https://docs.google.com/document/d/e//pub"],
+}
+PARSERS = {"youtube": "parse_youtube_url", "facebook": "parse_facebook_url", "twitter": "parse_twitter_url", "instagram": "parse_instagram_url", "telegram": "parse_telegram_url", "google": "parse_google_drive_url"}
+
+
+def empty_segment_table(ctx, rule):
+    ctx.rule(rule, "model table (empty and dot segments where a route expects an id): each platform parser, interpreted on routes whose id / name / handle segment is empty (doubled slash) or '.' / '..', returns None or a record none of whose fields is '', '.' or '..' (a record with an empty id is not well-formed, and its canonical url does not lead back to it)")
+    from . import tables as TB
+    from ..microeval import Obj
+    repo = ctx.repo
+    n = 0
+    for modname in MODULES:
+        mod = repo.mod(modname)
+        site = mod.site(mod.func(PARSERS[modname]).node)
+        for u in EMPTY_SEGMENT_URLS[modname]:
+            try:
+                got = TB.call(repo, modname, PARSERS[modname], u)
+            except Unknown as e:
+                ctx.undecided(rule, "%s(%r): %s" % (PARSERS[modname], u, e))
+                continue
+            n += 1
+            if isinstance(got, Obj):
+                fields = dict(got.attrs)
+            elif hasattr(got, "_fields"):
+                fields = dict(zip(got._fields, got))
+            else:
+                fields = None
+            bad = sorted(k for k, v in (fields or {}).items() if v in ("", ".", ".."))
+            ok = got is None or (fields is not None and not bad)
+            ctx.ob(rule, "%s/%s" % (modname, u), ok, "%s(%r) gives %r%s" % (PARSERS[modname], u, got, (": field(s) %s hold an empty or dot segment" % ", ".join(bad)) if bad else ""), site, witness=u)
+    ctx.require_instances(rule, n, sum(len(v) for v in EMPTY_SEGMENT_URLS.values()) - 3, "(parser, route) cells")
 
 
 def totality_table(ctx, rule):
